@@ -35,6 +35,12 @@ def cases(tier, seed):
             for k, part in enumerate([aseqs[i::4] for i in range(4)]):
                 out.append({"kind": "apply", "N": Na, "G": 3, "ncols": ncols, "masked": masked, "codes_list": [list(c) for c in part],
                             "name": f"GroupBy.apply(user function)/N={Na},G=3/value columns={ncols}/mask={masked}/{len(part)} code sequences (part {k})"})
+    # transform=True: every row receives its own group's result (labels in any order, unobserved labels, null keys)
+    for order in ([0, 1, 2], [2, 0, 1], [1, 2, 0]):
+        for masked in (False, True):
+            for k, part in enumerate([aseqs[i::2] for i in range(2)]):
+                out.append({"kind": "apply", "N": Na, "G": 3, "ncols": 1, "masked": masked, "transform": True, "label_order": order, "codes_list": [list(c) for c in part],
+                            "name": f"GroupBy.apply(user function, transform=True)/N={Na},G=3/label order {order}/mask={masked}/{len(part)} code sequences (part {k})"})
     return out
 
 
@@ -151,11 +157,16 @@ def run_apply(E, case):
             rt = fresh_runtime()
             rt.size_hints = [sum(1 for c in codes if c >= 0)]
             gb = make_gb(E, G, codes=A(list(codes), "int64"))
+            order = case.get("label_order")
+            if order is not None and order != sorted(order):
+                gb.__dict__["_labels_argsort"] = A(list(order), "int64")
+                gb._sort = True
+                gb._index_is_sorted = False
             vals = [A(c, "float64").tag("input:values") for c in cols]
             mask = A(list(mbits), "bool").tag("input:mask") if mbits is not None else None
             extra = {"codes": list(codes), "mask": list(mbits) if mbits is not None else None}
             try:
-                out = gb.apply(vals if ncols > 1 else vals[0], user, mask)
+                out = gb.apply(vals if ncols > 1 else vals[0], user, mask, bool(case.get("transform")))
             except (Unsupported, OutsideModel):
                 raise
             except Exception as e:      # noqa: BLE001
@@ -169,8 +180,25 @@ def run_apply(E, case):
                 continue
             series = [out[c] for c in out.columns] if isinstance(out, FakeFrame) else [out]
             sel = [codes[i] >= 0 and (mbits is None or mbits[i]) for i in range(N)]
-            groups = [g for g in range(G) if any(sel[i] and codes[i] == g for i in range(N))]
+            groups = [g for g in (order or range(G)) if any(sel[i] and codes[i] == g for i in range(N))]
             bl = []
+            if case.get("transform"):
+                arr = series[0].arr if isinstance(series[0], FakeSeries) else series[0]
+                cells = arr.cells if isinstance(arr, A) else [x for x in real_np.asarray(arr, dtype=object).ravel()]
+                if len(cells) != N:
+                    bl.append((f"transform result has {len(cells)} rows, not {N}", True))
+                else:
+                    for i in range(N):
+                        g = codes[i]
+                        r = SF.of(cells[i])
+                        if g < 0 or g not in groups:
+                            bl.append((f"row {i} (null key / group without a selected row) gets null", b_not(r.nan)))
+                        else:
+                            mem = [cols[0][j] for j in range(N) if sel[j] and codes[j] == g]
+                            bl.append((f"row {i} gets func(values of its group)", b_not(same(r, user(A(mem, "float64"))))))
+                dec = decide(inp, bl, rt)
+                _merge(res, dec, case, extra, f"apply:transform:mask={masked}")
+                continue
             if len(series) != ncols:
                 bl.append(("one result column per value column", True))
             for c, s in enumerate(series[:ncols]):
@@ -223,6 +251,28 @@ def replay(case, conc, cand=None):
                     bad.append(g)
             return bool(bad), {"got_vs_expected": jsonable(detail), "wrong_groups": bad, "x": jsonable(xs), "codes": codes}
         ncols = case["ncols"]
+        if case.get("transform"):
+            from . import c03 as C3
+            gb = C3.real_gb(G, codes=codes)
+            order = case.get("label_order")
+            if order is not None and order != sorted(order):
+                gb.__dict__["_labels_argsort"] = real_np.array(order)
+                gb._sort = True
+                gb._index_is_sorted = False
+            vals = real_np.array([float(x) for x in conc["v0_"]])
+            mask = real_np.array(case["mask"], dtype=bool) if case.get("mask") is not None else None
+
+            def f(a):
+                return float(real_np.sum(a * real_np.arange(1, len(a) + 1)))
+            out = real_np.asarray(gb.apply(vals, f, mask, True), dtype=float)
+            sel = [codes[i] >= 0 and (mask is None or mask[i]) for i in range(N)]
+            bad = []
+            for i in range(N):
+                mem = [vals[j] for j in range(N) if sel[j] and codes[j] == codes[i] and codes[i] >= 0]
+                exp = float(sum(v * (j + 1) for j, v in enumerate(mem))) if mem else float("nan")
+                if not approx_same(float(out[i]), exp):
+                    bad.append((i, float(out[i]), exp))
+            return bool(bad), {"transform": jsonable(list(out)), "wrong_rows": jsonable(bad[:6]), "codes": codes, "label_order": order, "mask": case.get("mask")}
         keys = pd.Series([float(c) if c >= 0 else float("nan") for c in codes])
         # make sure every label exists (unused categories) so that empty groups are part of the grouping
         cat = pd.Categorical.from_codes(codes, categories=[f"g{g}" for g in range(G)])
